@@ -197,8 +197,9 @@ def splitSeconds {F : Type} [FloatOps F] (ts : F) (base : Int) : Int :=
 
 /-- Seconds since 1970-01-01T00:00:00 of the `NaiveDateTime` returned by
     `excel_to_date_time_object` (chrono's `base + Duration::days + hours + minutes + seconds`).
-    chrono's range check (panic beyond ±262 000 years) is outside the model; the driver
-    answers `unmodelled` for `|timestamp| ≥ 5·10⁷`. -/
+    chrono's range check is not in this function (it is in `excelToEpochSecondsChecked` below, which
+    agrees with this one wherever it returns a value: `Umya.Thm.C19.C19_date_checked_agrees`); the C18
+    driver answers `unmodelled` for `|timestamp| ≥ 5·10⁷`. -/
 def excelToEpochSeconds {F : Type} [FloatOps F] (ts : F) : Int := splitSeconds ts (baseFor ts)
 
 structure DateTime where
@@ -221,6 +222,67 @@ def ofEpochSeconds (t : Int) : DateTime :=
 
 def excelToDateTime {F : Type} [FloatOps F] (ts : F) : DateTime :=
   ofEpochSeconds (excelToEpochSeconds ts)
+
+/-! ## chrono's ranges and `excel_to_date_time_object_checked` (fix d30eec7)
+
+  After the fix the arithmetic of `excel_to_date_time_object` lives in
+  `excel_to_date_time_object_checked`, written with `Duration::try_days / try_hours / try_minutes /
+  try_seconds` and `NaiveDateTime::checked_add_signed`; the old public function is
+  `…_checked(..).expect(..)` (it still panics where the sum leaves chrono's range), and
+  `format_as_date` calls the checked one.  chrono's bounds (0.4.38 … 0.4.45, read off its source;
+  trusted, tied by the `c19 edt` stream at the exact boundaries):
+  * `TimeDelta::try_seconds(s)` is `Some` iff `|s| ≤ i64::MAX / 1000`;
+    `try_days(n) = try_seconds(n.checked_mul(86_400)?)`, likewise hours (3600) and minutes (60);
+  * `NaiveDateTime::checked_add_signed` is `Some` iff the sum lies in
+    `-262143-01-01T00:00:00 ..= +262142-12-31T23:59:59`. -/
+
+/-- `f64 as i64` saturates; the `Float` instance's `toInt` already does, the exact instances do not -/
+def clampI64 (x : Int) : Int :=
+  if x < -9223372036854775808 then -9223372036854775808
+  else if 9223372036854775807 < x then 9223372036854775807 else x
+
+def i64? (x : Int) : Option Int :=
+  if -9223372036854775808 ≤ x ∧ x ≤ 9223372036854775807 then some x else none
+
+/-- `TimeDelta::try_seconds` (whole seconds): `i64::MAX / 1000 = 9223372036854775` -/
+def trySeconds (s : Int) : Option Int :=
+  if -9223372036854775 ≤ s ∧ s ≤ 9223372036854775 then some s else none
+
+/-- `Duration::try_days(n)` (`unit = 86400`), `try_hours` (3600), `try_minutes` (60), `try_seconds` (1):
+    the length in seconds, `none` where chrono returns `None` -/
+def tryUnits (unit n : Int) : Option Int := (i64? (n * unit)).bind trySeconds
+
+/-- seconds since 1970-01-01T00:00:00 of `NaiveDateTime::MIN` / `NaiveDateTime::MAX` (whole seconds) -/
+def chronoMinSec : Int := daysFromCivil (-262143) 1 1 * 86400
+def chronoMaxSec : Int := daysFromCivil 262142 12 31 * 86400 + 86399
+
+/-- `NaiveDateTime::checked_add_signed` on second counts -/
+def checkedAddSigned (t d : Int) : Option Int :=
+  if chronoMinSec ≤ t + d ∧ t + d ≤ chronoMaxSec then some (t + d) else none
+
+/-- `excel_to_date_time_object_checked`: seconds since 1970-01-01T00:00:00 of the result,
+    `none` = the function returns `None` (some `try_*` or some `checked_add_signed` did). -/
+def excelToEpochSecondsChecked {F : Type} [FloatOps F] (ts : F) : Option Int := do
+  let days := floor ts
+  let partDay := sub ts days
+  let hours := floor (mul partDay (ofInt 24))
+  let partDay := sub (mul partDay (ofInt 24)) hours
+  let minutes := floor (mul partDay (ofInt 60))
+  let partDay := sub (mul partDay (ofInt 60)) minutes
+  let seconds := round (mul partDay (ofInt 60))
+  let d ← tryUnits 86400 (clampI64 (toInt days))
+  let t ← checkedAddSigned (baseFor ts * 86400) d
+  let h ← tryUnits 3600 (clampI64 (toInt hours))
+  let t ← checkedAddSigned t h
+  let mi ← tryUnits 60 (clampI64 (toInt minutes))
+  let t ← checkedAddSigned t mi
+  let s ← tryUnits 1 (clampI64 (toInt seconds))
+  checkedAddSigned t s
+
+/-- the public `excel_to_date_time_object` after the fix: `…_checked(..).expect(..)`;
+    `none` = the Rust panics -/
+def excelToDateTimeObject {F : Type} [FloatOps F] (ts : F) : Option DateTime :=
+  (excelToEpochSecondsChecked ts).map ofEpochSeconds
 
 /-! ## `format_as_date` for quote-free formats -/
 
@@ -302,39 +364,50 @@ def dayNames : List String :=
 def nameAt (l : List String) (i : Int) : Option (List Char) :=
   if 0 ≤ i then (l[i.toNat]?).map (·.toList) else none
 
-/-- chrono `strftime` for the specifiers the replacement tables can produce and years
-    0..9999; `none` = outside the modelled fragment (chrono would panic or the specifier is
-    not modelled). -/
+/-- chrono `%Y` (`write_year`): four digits for 0..9999, else an explicit sign and at least four digits -/
+def yearText (y : Int) : List Char :=
+  if 0 ≤ y ∧ y ≤ 9999 then pad4 y
+  else
+    let ds := decDigits y.natAbs
+    (if y < 0 then '-' else '+') :: (List.replicate (4 - ds.length) '0' ++ ds)
+
+/-- `%-m %-d %-H %-I`; `none` = specifier outside the modelled fragment -/
+def specDash (dt : DateTime) (c : Char) : Option (List Char) :=
+  if c == 'm' then some (decDigits dt.month.toNat)
+  else if c == 'd' then some (decDigits dt.day.toNat)
+  else if c == 'H' then some (decDigits dt.hour.toNat)
+  else if c == 'I' then some (decDigits ((dt.hour + 11) % 12 + 1).toNat)
+  else none
+
+/-- `%Y %y %m %d %H %I %M %S %B %b %A %a %P`; `none` = specifier outside the modelled fragment
+    (or a month outside 1..12, which `ofEpochSeconds` never produces) -/
+def specPlain (dt : DateTime) (c : Char) : Option (List Char) :=
+  if c == 'Y' then some (yearText dt.year)
+  else if c == 'y' then some (pad2 (dt.year % 100))      -- `rem_euclid(100)`
+  else if c == 'm' then some (pad2 dt.month)
+  else if c == 'd' then some (pad2 dt.day)
+  else if c == 'H' then some (pad2 dt.hour)
+  else if c == 'I' then some (pad2 ((dt.hour + 11) % 12 + 1))
+  else if c == 'M' then some (pad2 dt.minute)
+  else if c == 'S' then some (pad2 dt.second)
+  else if c == 'B' then nameAt monthNames (dt.month - 1)
+  else if c == 'b' then (nameAt monthNames (dt.month - 1)).map (·.take 3)
+  else if c == 'A' then nameAt dayNames ((dt.dayNo + 4) % 7)
+  else if c == 'a' then (nameAt dayNames ((dt.dayNo + 4) % 7)).map (·.take 3)
+  else if c == 'P' then some (if dt.hour < 12 then "am".toList else "pm".toList)
+  else none
+
+/-- chrono `strftime` for the specifiers the replacement tables can produce, every year of chrono's
+    range; `none` = outside the modelled fragment (chrono would panic or the specifier is not modelled). -/
 def strftime (dt : DateTime) : List Char → Nat → Option (List Char)
   | [], _ => some []
   | _, 0 => none
   | '%' :: '-' :: c :: r, fuel + 1 =>
-    let v : Option (List Char) :=
-      if c == 'm' then some (decDigits dt.month.toNat)
-      else if c == 'd' then some (decDigits dt.day.toNat)
-      else if c == 'H' then some (decDigits dt.hour.toNat)
-      else if c == 'I' then some (decDigits ((dt.hour + 11) % 12 + 1).toNat)
-      else none
-    match v, strftime dt r fuel with
+    match specDash dt c, strftime dt r fuel with
     | some a, some b => some (a ++ b)
     | _, _ => none
   | '%' :: c :: r, fuel + 1 =>
-    let v : Option (List Char) :=
-      if c == 'Y' then (if 0 ≤ dt.year ∧ dt.year ≤ 9999 then some (pad4 dt.year) else none)
-      else if c == 'y' then (if 0 ≤ dt.year then some (pad2 (dt.year % 100)) else none)
-      else if c == 'm' then some (pad2 dt.month)
-      else if c == 'd' then some (pad2 dt.day)
-      else if c == 'H' then some (pad2 dt.hour)
-      else if c == 'I' then some (pad2 ((dt.hour + 11) % 12 + 1))
-      else if c == 'M' then some (pad2 dt.minute)
-      else if c == 'S' then some (pad2 dt.second)
-      else if c == 'B' then nameAt monthNames (dt.month - 1)
-      else if c == 'b' then (nameAt monthNames (dt.month - 1)).map (·.take 3)
-      else if c == 'A' then nameAt dayNames ((dt.dayNo + 4) % 7)
-      else if c == 'a' then (nameAt dayNames ((dt.dayNo + 4) % 7)).map (·.take 3)
-      else if c == 'P' then some (if dt.hour < 12 then "am".toList else "pm".toList)
-      else none
-    match v, strftime dt r fuel with
+    match specPlain dt c, strftime dt r fuel with
     | some a, some b => some (a ++ b)
     | _, _ => none
   | ['%'], _ => none
@@ -349,5 +422,19 @@ def formatAsDate {F : Type} [FloatOps F] (f : List Char) (ts : F) : Option (List
   match strftimeOf f with
   | some sf => (strftime (excelToDateTime ts) sf (sf.length + 1)).map trimBlanks
   | none => none
+
+/-- `format_as_date` after fix d30eec7, for a format `f` of the modelled fragment: the conversion is the
+    checked one; where it returns `None` (serial beyond chrono's years) the result is `value.to_string()`
+    — `g`, the shortest decimal text of the number, the same text `General` shows — otherwise chrono's
+    rendering; `to_formatted_string` trims the result.  `none` = unmodelled (format outside the fragment).
+    There is no panic path: the only partial step of the old code, `base + Duration::days(..) + …`, is
+    now `excelToEpochSecondsChecked`, whose `none` is handled. -/
+def formatAsDateChecked {F : Type} [FloatOps F] (f g : List Char) (ts : F) : Option (List Char) :=
+  match strftimeOf f with
+  | none => none
+  | some sf =>
+    match excelToEpochSecondsChecked ts with
+    | none => some (trimBlanks g)
+    | some t => (strftime (ofEpochSeconds t) sf (sf.length + 1)).map trimBlanks
 
 end Umya.Date
